@@ -45,7 +45,7 @@ RULE = ("operation lists over add(prefix in 2, number in 0..3, timeout in {0.1,1
         "deadline -eps|+0|+eps / sleep / 'at' (a sync op run as a loop callback at a deadline -eps|+0|+eps) / "
         "passthrough(filter, timeout) around the next 1..3 ops / clear / shutdown / re-add of a resolved cache object, each list run in one virtual-time "
         "loop against the model and followed by a drain past every deadline ever set: all words to depth 6 (quick), "
-        "7 (thorough) over an 8-letter 'schedule' and an 8-letter 'lifecycle' alphabet, depth 6 / 8 over a 7-letter 're-use' alphabet, plus depth 8 over the "
+        "7 (thorough) over an 8-letter 'schedule' and an 8-letter 'lifecycle' alphabet, depth 6 / 8 over an 8-letter 're-use' alphabet, plus depth 8 over the "
         "6-letter cores of the first two (words that register nothing or start with a no-op on the empty cache are skipped as "
         "repeats of shorter words), plus Hypothesis-drawn lists up to 40 ops. Non-trivial = a claim/clear/shutdown within the "
         "loop iteration of the target's expiry, a pop issued from inside on_timeout, or shutdown with something "
@@ -344,7 +344,7 @@ class Run:
         self.events["timeout"] += 1
         e.timeouts += 1
         if self.is_shutdown:
-            self.fail("R5", "on_timeout", f"on_timeout of {e} called after shutdown")
+            self.fail("R5", "on_timeout" + e.sfx, f"on_timeout of {e} called after shutdown")
         if e.status == "popped":
             self.fail("R2", "timeout_after_pop" + e.sfx, f"on_timeout of {e} called although it was claimed by pop")
         if e.status == "timedout":
@@ -776,7 +776,7 @@ RE = ["readd", 0]
 ALPHABETS = {
     "schedule": [A0, A1, A2, P0, V0, VM, VP, AT],
     "lifecycle": [A0, A3, AR, SH, CL, PT, V0, RT],
-    "reuse": [A0, RE, P0, V0, VM, VP, CL],
+    "reuse": [A0, RE, P0, V0, VM, VP, CL, SH],
     "schedule-core": [A0, A1, P0, V0, VP, AT],
     "lifecycle-core": [A0, A3, SH, CL, PT, V0],
 }
@@ -855,7 +855,7 @@ def run(ctx: Ctx) -> None:
         n = 700
     else:
         plan = [("schedule", 7), ("lifecycle", 7), ("reuse", 8), ("schedule-core", 8), ("lifecycle-core", 8)]
-        n = 25000
+        n = 12000
     shard_run(ctx, _exhaustive_shard, extra=(plan,))
     shard_run(ctx, _random_shard, extra=(n,))
     ctx.note("alphabets", {k: v for k, v in ALPHABETS.items() if any(k == p[0] for p in plan)})
